@@ -228,7 +228,7 @@ void *__verif_memset(void *s, int c, unsigned long n) { return __builtin_memset(
 void BCells__constructAllItems(struct BCells *self) {}
 void BCells__freeAllItems(struct BCells *self) {}
 #endif
-/*@ harness bounded_reuse_then_view plain=1 unwind=6 defs=PLAIN_STUBS bounded=allocated=1024,items<=6 props=C14,C15 timeout=600 */
+/*@ harness bounded_reuse_then_view when=ITEMSIZE<=64 plain=1 unwind=6 defs=PLAIN_STUBS bounded=allocated=1024,items<=6 props=C14,C15 timeout=600 */
 void bounded_reuse_then_view(void)
 {
   struct BCells b; struct std_array_long_2 s;
